@@ -351,7 +351,9 @@ def pipeline(ctx, add):
         set_global_language_to(lang)
         del calls[:]
         try:
-            rs = [(r.name, list(r.tokens), r.tree) for r in fn_reader(path)]
+            # every caller in depccg collects the generator before looking at the results: so does the check
+            collected = list(fn_reader(path))
+            rs = [(r.name, list(r.tokens), r.tree) for r in collected]
             if not all(isinstance(n, str) and tree_well_typed(t) and all(isinstance(v, str) for tk in toks for v in tk.values()) for n, toks, t in rs):
                 rs = None
         except Exception as e:      # noqa
@@ -842,6 +844,13 @@ def run(ctx):
     words = list(gen.WORD_POOL) + ['-', '&', '-\n', '&\n', '--', '-.', '_', '_.', '', '.', 'a-b', '(x)', 'U.S.', '!', '_-', '&&', '-&', 'a,b.c(d)e!f-g']
     for _ in range(150 if ctx.quick else 1500):
         words.append(gen.rand_word(rng))
+    # long runs of one reserved character (dotted leaders, rules of dashes, nested brackets): every occurrence is replaced
+    for ch in '.,()!-&':
+        for n in (31, 32, 33, 34, 40, 64, 65, 130):
+            words.append(ch * n)
+            words.append('a' + ch * n + rng.choice(['', 'b', '.']))
+    for _ in range(20 if ctx.quick else 200):
+        words.append(''.join(rng.choice('.,()!-ab') * rng.choice([1, 1, 2, 20, 35]) for _ in range(rng.randint(1, 5))))
     for w in words:
         try:
             v = normalize_token(w)
